@@ -215,14 +215,14 @@ fn check(rep: &Report, acc: &mut Acc, it: &Item, rank: u64) {
 /// One sender call of the history alphabet: (label, through encap_ext?, as a first fragment?)
 type HOp = (Lbl, bool, bool);
 
-/// Every history of at most `depth` sender calls over {label A, label B (3 bytes), broadcast} x {encap, encap_ext} x
+/// Every history of at most `depth` (3, thorough 5) sender calls over {label A, label B (3 bytes), broadcast} x {encap, encap_ext} x
 /// {complete, first fragment} on ONE encapsulator (re-use enabled), with a receiver in lock-step: each packet is
 /// peeked, then decapsulated; a packet whose label was replaced must be answered with the re-use error by peek and be
 /// associated by decap with the label that was replaced; a packet with a full label must peek and decap to that label.
 fn histories(rep: &Report, tier: Tier) {
     let labels = [L6A, L3B, Lbl::Bcast];
     let alphabet: Vec<HOp> = labels.iter().flat_map(|&l| [(l, false, false), (l, true, false), (l, false, true), (l, true, true)]).collect();
-    let depth = if tier.thorough() { 4 } else { 3 };
+    let depth = if tier.thorough() { 5 } else { 3 };
     let mut hists: Vec<Vec<HOp>> = vec![vec![]];
     let mut all: Vec<Vec<HOp>> = vec![];
     for _ in 0..depth {
